@@ -16,6 +16,8 @@ C={
   MODEL_NOTE,"runtime monitoring: differential testing against an executable reference model (reply + state + inertness oracle per step)"),
 "C06":("exploration","Exhaustive command x key-type matrix (about 180 command templates x 5 key types, 9 with TTL variants in thorough) on fresh emulators, 30 ways of removing the last element of an aggregate followed by EXISTS/TYPE/KEYS/SCAN/DBSIZE probes, and random keyspace sequences (RENAME/COPY/KEYS globs/SORT options ...) - all in lock step with the reference model; every error reply is checked for inertness against the SUT's own previous dump and every dump for empty aggregates and KEYS/EXISTS/DBSIZE consistency.",
   MODEL_NOTE,"runtime monitoring: differential testing against an executable reference model + SUT-only invariants (inertness on error, no empty aggregates, KEYS/EXISTS/DBSIZE agreement)"),
+"C18":("exploration","Bitmap commands against a bit-array model: BITFIELD GET/SET/INCRBY over every type i1..i64/u1..u63 x 11 bit offsets x boundary values x overflow modes x 3 base strings, BITCOUNT/BITPOS over all (start,end) pairs in byte and bit units for every string of length <= 3 over a 5-byte alphabet plus the missing key, SETBIT/GETBIT offsets 0..40 and extremes, BITOP with 1-4 operands (missing, wrong-typed, destination among sources), random multi-op BITFIELD; the string is re-read after every command. thorough enumerates the tables completely, quick a seeded 1/8 slice.",
+  MODEL_NOTE+" The bit-array model is unit-tested against the documented BITCOUNT/BITPOS/BITFIELD examples.","runtime monitoring: differential testing against an executable bit-array reference model (small-scope exhaustive tables + random)"),
 "C13":("exploration","Hostile byte strings, generated commands (every command token x arity 0..7 x boundary arguments x key types) and MULTI sequences are sent to the live emulator over TCP; exit status, a canary connection, strict reply framing and a sentinel ECHO decide crash / stall / unanswered / mis-framed. Sampling, not enumeration.",
   "Trusts the harness's strict RESP parser, the 3-4 s watchdogs on a loaded machine, and the 12 GiB address-space limit as the definition of 'resource exhaustion'.","runtime monitoring: liveness/canary monitor + framing monitor over generated hostile inputs (child process per shard)"),
 }
